@@ -266,8 +266,34 @@ def run_footprint(interp, c):
         lemma(c, f"the next queue of an origin reads only its own variables and the first segment of its link ({rd.op[3:]})", owner_ok(rd, allowed))
 
 
+def run_lean(interp, c):
+    """the Lean lemma file: quick tier = the committed proof-check stamp matches the file;
+    thorough tier = lean re-checks the file (about 2-4 minutes, Mathlib import)"""
+    import hashlib, json, os, subprocess
+
+    here = os.path.dirname(os.path.dirname(os.path.abspath(__file__)))
+    f = os.path.join(here, "lemmas", "Metanet.lean")
+    src = open(f, "rb").read()
+    stamp = json.load(open(f + ".checked"))
+    ok = hashlib.sha256(src).hexdigest() == stamp.get("sha256")
+    c.oblige("lemma", "lemmas/Metanet.lean is the file whose Lean check is recorded in Metanet.lean.checked", T.const(ok), assume_after=False)
+    names = ("fd_max", "network_balance", "sum_enum", "sum_perm", "exp_pos'", "exp_le_one_of_nonpos", "log_nonpos'", "rpow_nonneg'", "zero_rpow'", "one_rpow'")
+    text = src.decode()
+    for nme in names:
+        c.oblige("lemma", f"Lean theorem Metanet.{nme} is stated in the checked file (no sorry in the file)", T.const(__import__("re").search(r"theorem " + __import__("re").escape(nme) + r"\s", text) is not None and "sorry" not in text), assume_after=False)
+    if os.environ.get("VERIF_TIER_EFFECTIVE") == "thorough":
+        try:
+            p = subprocess.run(["lean", f], capture_output=True, text=True, timeout=1500, cwd=os.path.dirname(f))
+            out = p.stdout + p.stderr
+            good = p.returncode == 0 and "error" not in out.lower() and "sorryAx" not in out
+        except Exception as e:  # noqa: BLE001
+            good, out = False, str(e)
+        c.oblige("lemma", "lean accepts lemmas/Metanet.lean (axioms: propext, Classical.choice, Quot.sound only)", T.const(good), assume_after=False, meta={"lean_output": out[-800:]})
+
+
 def all_tasks():
     return [
+        Task("lean:lemmas/Metanet.lean", run_lean, props=("C02", "C14", "C17", "C18"), func="lemmas/Metanet.lean"),
         Task("lemma:origin-flow-bounds(ramps)", run_c17_ramps, props=("C17",), func="EngineSpec.origins.get_ramp_flow/get_simplifiedramp_flow"),
         Task("lemma:origin-flow-bounds(mainstream)", run_c17_mainstream, props=("C17",), func="EngineSpec.origins.get_mainstream_flow"),
         Task("lemma:mainstream-flow-vs-Hegyi", run_c01_mainstream_hegyi, props=("C01",), func="EngineSpec.origins.get_mainstream_flow"),
